@@ -1910,6 +1910,69 @@ theorem unfarmAndWithdraw_inv {cfg : Cfg} {s s' : State} {app user pool amt x y 
 
 /-! ### every operation keeps the invariant -/
 
+/-- the store migration 1 → 2 keeps the ledger invariant: it moves no coin and keeps every amount of every record; the only
+field it rewrites that the invariant reads is the order type, and `limit` and `market` orders carry the same fee reserve -/
+theorem migrate_inv {cfg : Cfg} {s s' : State} (hi : Inv cfg s) (h : migrate cfg s = some s') : Inv cfg s' := by
+  unfold migrate at h
+  split at h
+  · rename_i hv
+    cases h
+    obtain ⟨hty, -, -⟩ := hv
+    refine ⟨hi.escrow, ?_, hi.farm, ?_, hi.qpos, ?_⟩
+    · intro a p d
+      show s.bal (.pairEscrow a p) d + s.bal (.mOut a p) d = liveSum cfg a p d (s.orders.map _) + s.bal (.mIn a p) d
+      unfold liveSum
+      rw [sumOver_map]
+      · exact hi.pairEsc a p d
+      · intro o ho
+        have := hty o ho
+        split
+        · simp [liveTerm, feeRes, this]
+        · rfl
+    · intro q hq
+      obtain ⟨q0, hq0, rfl⟩ := List.mem_map.mp hq
+      have := hi.zero q0 hq0
+      split
+      · exact this
+      · exact this
+    · intro o ho
+      obtain ⟨o0, ho0, rfl⟩ := List.mem_map.mp ho
+      have hok := hi.ords o0 ho0
+      have hm := hty o0 ho0
+      split
+      · simpa [OrderOk, feeRes, fwdSpec, hm] using hok
+      · exact hok
+  · cases h
+
+/-- a delivered limit / market order is `placeOrder` with the price and the validation result the model computes -/
+theorem placeOrderMsg_core {cfg : Cfg} {s s' : State} {app user pair : Nat} {typ : OType} {buy : Bool} {od dd : Denom}
+    {msgOffer msgPrice amount : Nat} {lifespan : Int}
+    (h : placeOrderMsg cfg s app user pair typ buy od dd msgOffer msgPrice amount lifespan = some s') :
+    ∃ price ext, placeOrder cfg s app user pair typ buy msgOffer msgPrice price amount lifespan ext = some s' := by
+  unfold placeOrderMsg at h
+  split at h; · cases h
+  split at h; · cases h
+  split at h; · cases h
+  exact ⟨_, _, h⟩
+
+/-- a delivered market-making order is `mmOrder` with the ticks the model computes -/
+theorem mmOrderMsg_core {cfg : Cfg} {s s' : State} {app user pair : Nat} {maxSell minSell sellAmt maxBuy minBuy buyAmt : Nat}
+    {lifespan : Int} (h : mmOrderMsg cfg s app user pair maxSell minSell sellAmt maxBuy minBuy buyAmt lifespan = some s') :
+    ∃ buys sells, mmOrder cfg s app user pair buys sells lifespan true = some s' := by
+  unfold mmOrderMsg at h
+  split at h; · cases h
+  split at h; · cases h
+  split at h; · cases h
+  split at h; · cases h
+  split at h; · cases h
+  split at h; · cases h
+  split at h; · cases h
+  simp only [] at h
+  split at h; · cases h
+  split at h; · cases h
+  split at h; · cases h
+  exact ⟨_, _, h⟩
+
 theorem step_inv {cfg : Cfg} (hc : CfgOk cfg) {s s' : State} {op : Op} (hi : Inv cfg s) (h : step cfg s op = some s') :
     Inv cfg s' := by
   cases op with
@@ -1926,8 +1989,8 @@ theorem step_inv {cfg : Cfg} (hc : CfgOk cfg) {s s' : State} {op : Op} (hi : Inv
     cases hd : withdrawReq cfg s a u p pc e with
     | none => simp [hd] at h
     | some r => obtain ⟨s1, id⟩ := r; simp [hd] at h; subst h; exact withdrawReq_inv hi hd
-  | order a u p t b mo mp pr am l e => exact placeOrder_inv hi h
-  | mmOrder a u p bs ss l e => exact mmOrder_inv hi h
+  | order a u p t b od dd mo mp am l => obtain ⟨_, _, h⟩ := placeOrderMsg_core h; exact placeOrder_inv hi h
+  | mmOrder a u p xs ns sa xb nb ba l => obtain ⟨_, _, h⟩ := mmOrderMsg_core h; exact mmOrder_inv hi h
   | cancel a u p i => exact cancelOrder_inv hi h
   | cancelAll a u ps => exact cancelAll_inv hi h
   | cancelMM a u p => exact cancelMM_inv hi h
@@ -1937,6 +2000,7 @@ theorem step_inv {cfg : Cfg} (hc : CfgOk cfg) {s s' : State} {op : Op} (hi : Inv
   | unfarmAndWithdraw a u p n x y e => exact unfarmAndWithdraw_inv hi h
   | endBlock a ms ds ws => exact endBlock_inv hi h
   | beginBlock a => simp only [step, Option.some.injEq] at h; subst h; exact beginBlock_inv hi a
+  | migrate => exact migrate_inv hi h
 
 theorem stepT_inv {cfg : Cfg} (hc : CfgOk cfg) {s : State} (op : Op) (hi : Inv cfg s) : Inv cfg (stepT cfg s op) := by
   unfold stepT
